@@ -28,14 +28,14 @@ T2 = "_ipp._tcp.local."
 
 def floors(tier):
     q = tier == "quick"
-    return {"c16.trace_equal": 300 if q else 30000, "c16.callbacks_equal": 250 if q else 25000}
+    return {"c16.trace_equal": 5000 if q else 600000, "c16.callbacks_equal": 3000 if q else 400000}
 
 
 def plan(tier, seed):
     if tier == "quick":
-        n, per = 16, 40
+        n, per = 16, 300
     else:
-        n, per = 64, 1200
+        n, per = 64, 9000
     return [{"seed": seed, "shard": i, "per": per, "tier": tier} for i in range(n)]
 
 
